@@ -28,6 +28,16 @@ def run(ctx):
         for i, a in enumerate(r.get("value", [])):
             jobs.append(Job("c06.py", "h_consume_order", {"which": "consume", "lang": lang, "automaton": i}, T, 60, tag=f"transition order {lang} pair{a['pair']}.{a['part']}", meta={"twin": lang == "JavaScript" and a["part"] == "header" and a["pair"] == 1, "sigtag": f"order:{lang}"}))
     jobs.append(Job("c06.py", "h_add_order", {"which": "add"}, T, 30, tag="insertion order, 3 files"))
+    # S-hash at scan_file level: every single-edit mutant of programs that exercise patterns with several live transitions, identity vs permuted transition order
+    from vlib import skel
+    for lang in capture.LANG_NAMES:
+        have = dict(skel.programs(lang, "quick"))
+        for label in ("one-arrow", "one-throws", "two", "one-asyncarrow"):
+            if label not in have or (ctx.quick() and label == "two" and lang not in ("Python", "Java")):
+                continue
+            for op in ("delete", "dup", "replace", "swap"):
+                jobs.append(Job("mut.py", "h_mut", {"lang": lang, "label": label, "op": op, "order": True}, T, 60, tag=f"seed-order {lang}/{label}/{op}", meta={"sigtag": f"hash-seed:{lang}", "twin": False}))
+    ctx.bounds["hash seed at scan_file level"] = "every single-edit mutant of arrow / throws / plain programs: outcome under identity vs reversed vs rotated transition order of every DFA state"
     for n in ((2,) if ctx.quick() else (2, 3)):
         for e1 in range(7):
             jobs.append(Job("c06.py", "h_analyze_history", {"which": "history", "fix_n": n, "fix_e1": e1}, T * (1 if n == 2 else 4), 60, tag=f"file-level isolation, history of {n} files, first ext #{e1}", meta={"sigtag": "file-isolation", "twin": e1 == 0}))
